@@ -206,6 +206,101 @@ mod verif_cex {
         }
     }
 
+    /// A diagnostic location expected in a multi-block / multi-file run.
+    #[derive(Debug, Clone, PartialEq, Eq, PartialOrd, Ord)]
+    struct Loc {
+        file: String,
+        line: usize,
+        col_start: usize,
+        col_end: usize,
+        key: String,
+    }
+
+    fn locs_json(locs: &Option<Vec<Loc>>) -> Value {
+        match locs {
+            None => json!({"error": "any"}),
+            Some(v) => json!({"violations": v.iter().map(|l| json!({"file": l.file, "range": {"start": {"line": l.line, "character": l.col_start}, "end": {"line": l.line, "character": l.col_end}}, "text_at_range": l.key})).collect::<Vec<_>>()}),
+        }
+    }
+
+    /// Multi-block version of `agrees`: `expected` = None for Err, else the exact multiset of
+    /// diagnostics (file, line, 1-based inclusive byte columns, text found there).
+    fn agrees_all(
+        expected: &Option<Vec<Loc>>,
+        observed: &anyhow::Result<CexHashMap<CexPathBuf, Vec<Violation>>>,
+        code: &str,
+        texts: &[(&str, &str)],
+    ) -> bool {
+        match (expected, observed) {
+            (None, Err(_)) => true,
+            (Some(exp), Ok(m)) => {
+                let mut obs: Vec<(String, usize, usize, usize, usize)> = Vec::new();
+                for (f, vs) in m {
+                    for v in vs {
+                        if v.code != code {
+                            return false;
+                        }
+                        obs.push((f.display().to_string(), v.range.start.line, v.range.start.character, v.range.end.line, v.range.end.character));
+                    }
+                }
+                obs.sort();
+                let mut exp_sorted: Vec<(String, usize, usize, usize, usize)> =
+                    exp.iter().map(|l| (l.file.clone(), l.line, l.col_start, l.line, l.col_end)).collect();
+                exp_sorted.sort();
+                if obs != exp_sorted {
+                    return false;
+                }
+                exp.iter().all(|l| {
+                    let text = texts.iter().find(|(f, _)| *f == l.file).map(|(_, t)| *t).unwrap_or("");
+                    let file_line = text.split('\n').nth(l.line - 1).unwrap_or("");
+                    file_line.as_bytes().get(l.col_start - 1..l.col_end) == Some(l.key.as_bytes())
+                })
+            }
+            _ => false,
+        }
+    }
+
+    /// Several sibling blocks in one python file: `# <block attrs>` / lines / `# </block>` each.
+    /// Returns the text and, per block, the byte offsets of its generated content lines.
+    fn build_siblings(blocks: &[(&str, Vec<&str>)]) -> (String, Vec<Vec<usize>>) {
+        let mut text = String::from("import os\n");
+        let mut all = Vec::new();
+        for (attrs, lines) in blocks {
+            let sp = if attrs.is_empty() { "" } else { " " };
+            text.push_str(&format!("# <block{sp}{attrs}>\n"));
+            let mut offs = Vec::new();
+            for l in lines {
+                offs.push(text.len());
+                text.push_str(l);
+                text.push('\n');
+            }
+            text.push_str("# </block>\n\n");
+            all.push(offs);
+        }
+        (text, all)
+    }
+
+    /// One validation context over several files, every block marked content-modified.
+    fn context_of_files(parsers: &Parsers, files: &[(&str, &str)]) -> Result<CexArc<ValidationContext>, String> {
+        let mut map = CexHashMap::new();
+        for (name, text) in files {
+            let ext = name.rsplit('.').next().unwrap();
+            let parser = parsers.get(&OsString::from(ext)).unwrap();
+            let blocks = parser.borrow_mut().parse(text).map_err(|e| e.to_string())?;
+            map.insert(
+                CexPathBuf::from(name),
+                FileBlocks {
+                    file_content: text.to_string(),
+                    blocks_with_context: blocks
+                        .into_iter()
+                        .map(|block| BlockWithContext { block, _is_start_tag_modified: false, is_content_modified: true })
+                        .collect(),
+                },
+            );
+        }
+        Ok(CexArc::new(ValidationContext::new(map)))
+    }
+
     // ----------------------------------------------------------------------------------------
     // Reference semantics, written from C06 (statement) - not from the validator.
     // ----------------------------------------------------------------------------------------
